@@ -68,7 +68,8 @@ def run(ctx):
                         loc = rng.choice(w["locales"])
                         if loc.startswith(L0 + "-"):
                             region = [L0, loc[len(L0) + 1:]]
-                    cases.append({"s": s, "langs": langs, "given": given, "order": tried, "defaults": defaults, "region": region,
+                    via = "languages" if rng.random() < 0.6 else "locales"
+                    cases.append({"s": s, "langs": langs, "given": given, "order": tried, "defaults": defaults, "region": region, "via": via,
                                   "settings": {"RELATIVE_BASE": BASE}, "lang0": L0})
         # every language paired with reference languages of each date order, both list orders: the
         # priority order decides which reading of an ambiguous numeric date wins
@@ -77,9 +78,14 @@ def run(ctx):
                 if ref == L0:
                     continue
                 for langs in ([L0, ref], [ref, L0]):
-                    given = rng.random() < 0.35
-                    tried = list(langs) if given else sorted(langs, key=lambda x: pos[x])
-                    cases.append({"s": rng.choice(["01/02/2015", "03-04-2011", "05.06.2019 10:30"]), "langs": langs, "given": given, "order": tried,
+                    given = rng.random() < 0.5
+                    via = rng.choice(["languages", "locales"])
+                    names = list(langs)
+                    if via == "locales":        # plain codes are locales too; sometimes a regional locale of the language
+                        names = [rng.choice(W["langs"][x]["locales"]) if W["langs"][x]["locales"] and rng.random() < 0.5 else x for x in langs]
+                    lang_of = dict(zip(names, langs))
+                    tried = list(names) if given else sorted(names, key=lambda x: pos[lang_of[x]])
+                    cases.append({"s": rng.choice(["01/02/2015", "03-04-2011", "05.06.2019 10:30"]), "langs": names, "given": given, "order": tried, "via": via,
                                   "defaults": [rng.choice(order)], "region": None, "settings": {"RELATIVE_BASE": BASE}, "lang0": L0})
     results = core.run_cases(ctx, "harness.lib", "call_c13", cases, chunk=20)
     records = []
@@ -90,7 +96,7 @@ def run(ctx):
     for t in tuples["REJECT"]:
         _, tid, kind, verdict, exp = t[:5]
         c, r = cases[tid], results[tid]
-        ctx.violation({"string": c["s"], "languages": c["langs"], "use_given_order": c["given"], "order_tried": c["order"], "DEFAULT_LANGUAGES": c["defaults"],
+        ctx.violation({"string": c["s"], c.get("via", "languages"): c["langs"], "use_given_order": c["given"], "order_tried": c["order"], "DEFAULT_LANGUAGES": c["defaults"],
                        "region": c["region"], "settings": c["settings"]}, verdict, expected=exp,
                       observed={k: r[k] for k in ("singles", "multi", "multidef", "auto", "reparse", "region", "asLocale", "exc")}, extra={"full_case": c})
     cov = {
